@@ -197,7 +197,7 @@ def run(tier: str) -> int:
             events.append(ev)
             owner.append(("seq", k))
     log(f"[C10] G {n_offsets} crash offsets + {n_struct} structural variants + directory faults + {len(seqs)} fault sequences: {len(events)} steps on real directories, {t.s()}s")
-    rejected = accept(wd, events, {"Paths": '{"p1", "p2", "p3"}', "Contents": '{"c1", "c2", "c3", "c4"}'}, name="c10_trace")
+    rejected = accept(wd, events, {"Paths": '{"p1", "p2", "p3", "p4"}', "Contents": '{"c1", "c2", "c3", "c4", "c5"}'}, name="c10_trace")
     for k, clause in sorted(rejected.items()):
         kind, j = owner[k]
         if kind == "fault":
@@ -246,7 +246,7 @@ def replay(path: str) -> int:
         return 2
     evs = [e for e in r[1] if e["exc"] != "precondition"]
     wd = workdir(PROP, "replay")
-    rej = accept(wd, evs, {"Paths": '{"p1", "p2", "p3"}', "Contents": '{"c1", "c2", "c3", "c4"}'}, name="replay")
+    rej = accept(wd, evs, {"Paths": '{"p1", "p2", "p3", "p4"}', "Contents": '{"c1", "c2", "c3", "c4", "c5"}'}, name="replay")
     for k, e in enumerate(evs):
         print(k, e["op"], "->", e["post"]["outcome"], e["exc"], "REJECTED " + rej[k] if k in rej else "")
     if rej:
